@@ -66,7 +66,7 @@ def main():
 
     import signal
 
-    class Hang(Exception):
+    class Hang(BaseException):
         pass
 
     def on_alarm(signum, frame):
